@@ -13,6 +13,17 @@
 //!       (what `str_to_comma_decimal` does with a non-empty cell)
 //!   P : result of the real `report::process` over `fund ++ printed` (`proc::run_process`), `-` without fund
 //! The shared pieces are used by `c18.rs` as well.
+//!
+//! `hx c16 cells` — okane's own cell decoders, one case per line:
+//!   `<id> num=<enc cell>`  -> `<id> num=<R>`
+//!       R: `(none)` (empty cell: `str_to_comma_decimal` returns `Ok(None)`) | `(ok (dec neg mant scale fmt) <enc commodity>)`
+//!          (`TryFrom<&str> for syntax::expr::Amount`, which IS the decoder behind `str_to_comma_decimal`) | `(err)` | `(panic MSG)`
+//!   `<id> tpl=<enc template> cfg=<enc YAML> src=<enc CSV> keys=<k1,k2,..>`
+//!       -> `<id> tpl <k1>=<T> <k2>=<T> ...`
+//!       `template::Template` is `pub(crate)`: the real `Template::from_str` + `Template::render` are reached through
+//!       `import::import`: for each key the configuration's `format.fields[key]` is replaced by
+//!       `FieldPos::Template(TemplateField { template })` and the CSV imported;
+//!       T: `(ok <enc rendered of record 1> ...)` (payee / commodity of each transaction) | `(err KIND)` | `(panic MSG)`
 use std::collections::{BTreeMap, BTreeSet};
 use std::io::{BufRead, BufReader, Write};
 use std::path::Path;
@@ -120,7 +131,121 @@ fn decode_cells(cfg: &config::ConfigEntry, src: &str) -> Option<Vec<Vec<String>>
     Some(out)
 }
 
-pub fn run(_args: &[String], out: &mut dyn Write) -> i32 {
+/// `str_to_comma_decimal` on one cell (its body, with the private function's parser reached through `TryFrom`)
+fn decode_number_cell(cell: &str) -> String {
+    if cell.is_empty() {
+        return "(none)".to_string();
+    }
+    let c2 = cell.to_string();
+    let r = sx::catch(move || {
+        syntax::expr::Amount::try_from(c2.as_str())
+            .ok()
+            .map(|a| format!("(ok {} {})", tree::pdec(&a.value), enc(&a.commodity)))
+    });
+    match r {
+        Ok(Some(s)) => s,
+        Ok(None) => "(err)".to_string(),
+        Err(msg) => format!("(panic {})", enc(&msg)),
+    }
+}
+
+fn field_key_of(name: &str) -> Option<config::FieldKey> {
+    use config::FieldKey::*;
+    Some(match name {
+        "date" => Date,
+        "payee" => Payee,
+        "category" => Category,
+        "note" => Note,
+        "commodity" => Commodity,
+        "secondary_commodity" => SecondaryCommodity,
+        _ => return None,
+    })
+}
+
+/// the real `Template::from_str` and `Template::render` for `template` put at field `key`, observed on the import result
+fn render_template_through_import(cfg: &config::ConfigEntry, src: &str, key_name: &str, template: &str) -> String {
+    let key = match field_key_of(key_name) {
+        Some(k) => k,
+        None => return "(badkey)".to_string(),
+    };
+    let mut cfg2 = cfg.clone();
+    cfg2.format.fields.insert(
+        key,
+        config::FieldPos::Template(config::TemplateField { template: template.to_string() }),
+    );
+    let src2 = src.to_string();
+    let kn = key_name.to_string();
+    let r = sx::catch(std::panic::AssertUnwindSafe(move || {
+        let xacts = match import::import(src2.as_bytes(), Format::Csv, &cfg2) {
+            Ok(x) => x,
+            Err(e) => return format!("(err {})", kind_of(&format!("{:?}", e))),
+        };
+        let mut parts = Vec::new();
+        for xact in &xacts {
+            match xact.to_double_entry(&cfg2.account) {
+                Ok(t) => {
+                    let shown: String = match kn.as_str() {
+                        "payee" => t.payee.to_string(),
+                        "commodity" => t
+                            .posts
+                            .first()
+                            .and_then(|p| p.amount.as_ref())
+                            .map(|a| match &a.amount {
+                                syntax::expr::ValueExpr::Amount(a) => a.commodity.to_string(),
+                                _ => "?paren".to_string(),
+                            })
+                            .unwrap_or_else(|| "?none".to_string()),
+                        _ => "?".to_string(),
+                    };
+                    parts.push(enc(&shown));
+                }
+                Err(e) => return format!("(dberr {})", kind_of(&format!("{:?}", e))),
+            }
+        }
+        format!("(ok {})", parts.join(" "))
+    }));
+    match r {
+        Ok(s) => s,
+        Err(msg) => format!("(panic {})", enc(&msg)),
+    }
+}
+
+fn run_cells(out: &mut dyn Write) -> i32 {
+    let stdin = std::io::stdin();
+    let mut cfg_cache: BTreeMap<String, Result<config::ConfigEntry, String>> = BTreeMap::new();
+    for line in stdin.lock().lines() {
+        let line = line.unwrap();
+        let (id, f) = fields(&line);
+        if let Some(cell) = f.get("num") {
+            writeln!(out, "{} num={}", id, decode_number_cell(cell)).unwrap();
+        } else if let Some(tpl) = f.get("tpl") {
+            let yaml = f.get("cfg").cloned().unwrap_or_default();
+            let src = f.get("src").cloned().unwrap_or_default();
+            let keys = f.get("keys").cloned().unwrap_or_default();
+            let cfg = cfg_cache
+                .entry(yaml.clone())
+                .or_insert_with(|| load_config(&yaml, "/data/statement.csv"))
+                .clone();
+            let mut parts = Vec::new();
+            for k in keys.split(',').filter(|k| !k.is_empty()) {
+                let r = match &cfg {
+                    Ok(c) => render_template_through_import(c, &src, k, tpl),
+                    Err(kind) => format!("(cfgerr {})", kind),
+                };
+                parts.push(format!("{}={}", k, r));
+            }
+            writeln!(out, "{} tpl {}", id, parts.join(" ")).unwrap();
+        } else {
+            writeln!(out, "{} bad-case", id).unwrap();
+        }
+    }
+    0
+}
+
+pub fn run(args: &[String], out: &mut dyn Write) -> i32 {
+    if args.first().map(|s| s.as_str()) == Some("cells") {
+        return run_cells(out);
+    }
     let stdin = std::io::stdin();
     for line in stdin.lock().lines() {
         let line = line.unwrap();
